@@ -39,6 +39,8 @@ class SCtx(cfun.Ctx):
         self.local_defs = {}   # local name -> Lean term substituted at each read (used by the verify walker)
         self.has_oob = {}
         self.reads = set()     # struct fields read (var.field)
+        self.struct_defs = {}  # Lean structure name -> {member: ("int", ctype) | ("list", ctype, len)} (elements of "structlist" members)
+        self.declared = []     # C locals declared so far (shadowing is refused)
 
     def split(self, path):
         best = None
@@ -64,7 +66,7 @@ class SCtx(cfun.Ctx):
         if sv is None:
             raise Unsupported("member path %s has no known base" % path)
         q = node.get("type", {}).get("desugaredQualType") or node.get("type", {}).get("qualType", "")
-        if f in sv.fields and sv.fields[f][0] == "blob":
+        if f in sv.fields and sv.fields[f][0] in ("blob", "structlist"):
             pass
         elif "[" in q:
             import re
@@ -74,6 +76,36 @@ class SCtx(cfun.Ctx):
             sv.fields.setdefault(f, ("int", ctype(node)))
         self.reads.add("%s.%s" % (sv.var, ident(f)))
         return "%s.%s" % (sv.var, ident(f))
+
+    def elem_parts(self, n):
+        """`base->arr[i].m` -> (struct var, array field, index node, member name, member entry); None if n is not of that form."""
+        if n.get("kind") != "MemberExpr":
+            return None
+        sub = strip_casts(n["inner"][0])
+        if sub.get("kind") != "ArraySubscriptExpr":
+            return None
+        base, idx = sub["inner"]
+        b = strip_casts(base)
+        if b.get("kind") != "MemberExpr":
+            return None
+        p = cfun.member_path(b, self.aliases)
+        sv, f = self.split(p) if p else (None, None)
+        if sv is None or f not in sv.fields or sv.fields[f][0] != "structlist":
+            return None
+        ent = sv.fields[f]
+        mem = self.struct_defs.get(ent[1], {}).get(n["name"])
+        if mem is None:
+            return None
+        return sv, f, p, b, idx, n["name"], mem
+
+    def read_elem_member(self, n):
+        parts = self.elem_parts(n)
+        if parts is None:
+            raise Unsupported("member expression base too complex")
+        sv, f, p, b, idx, m, mem = parts
+        arr = self.read_member(p, b)
+        t = "((%s).getD (%s).toNat default).%s" % (arr, cfun.expr(idx, self), ident(m))
+        return "(%s : Int)" % t if mem[0] == "int" else t
 
     def call(self, name, node):
         if name in self.user_calls:
@@ -98,6 +130,8 @@ class Lhs:
     def __init__(self, kind, var, field=None, idx=None, cty=None, arrlen=None, idx_lit=None, oob=False):
         self.kind, self.var, self.field, self.idx, self.cty, self.arrlen = kind, var, field, idx, cty, arrlen
         self.idx_lit, self.oob = idx_lit, oob
+        # kind "nested" (`base->arr[i].m[k] = v` / `base->arr[i].m = v`): member name, inner index term/literal/length
+        self.member, self.idx2, self.idx2_lit, self.arrlen2 = None, None, None, None
 
 
 def lvalue(n, cx):
@@ -107,15 +141,35 @@ def lvalue(n, cx):
     k = n.get("kind")
     if k == "DeclRefExpr":
         return Lhs("local", ident(n["referencedDecl"]["name"]), cty=ctype(n))
-    if k == "MemberExpr":
+    if k == "MemberExpr" and cfun.member_path(n, cx.aliases) is not None:
         p = cfun.member_path(n, cx.aliases)
-        if p is None:
-            raise Unsupported("assignment target")
         sv, f = cx.split(p)
         if sv is None:
             raise Unsupported("assignment to member of unknown base: %s" % p)
         cx.read_member(p, n)   # registers the field
         return Lhs("field", sv.var, field=ident(f), cty=ctype(n))
+    if k == "MemberExpr" and cfun.member_path(n, cx.aliases) is None:
+        parts = cx.elem_parts(n)
+        if parts is None or parts[6][0] != "int":
+            raise Unsupported("assignment target")
+        sv, f, p, b, idx, m, mem = parts
+        cx.read_member(p, b)
+        lh = Lhs("nested", sv.var, field=ident(f), idx=cfun.expr(idx, cx), cty=ctype(n), arrlen=sv.fields[f][2],
+                 idx_lit=cfun.literal_value(strip_casts(idx)), oob=sv.has_oob)
+        lh.member = ident(m)
+        return lh
+    if k == "ArraySubscriptExpr" and strip_casts(n["inner"][0]).get("kind") == "MemberExpr" and \
+            cfun.member_path(strip_casts(n["inner"][0]), cx.aliases) is None:
+        base, idx2 = n["inner"]
+        parts = cx.elem_parts(strip_casts(base))
+        if parts is None or parts[6][0] != "list":
+            raise Unsupported("array element assignment base")
+        sv, f, p, b, idx, m, mem = parts
+        cx.read_member(p, b)
+        lh = Lhs("nested", sv.var, field=ident(f), idx=cfun.expr(idx, cx), cty=ctype(n), arrlen=sv.fields[f][2],
+                 idx_lit=cfun.literal_value(strip_casts(idx)), oob=sv.has_oob)
+        lh.member, lh.idx2, lh.idx2_lit, lh.arrlen2 = ident(m), cfun.expr(idx2, cx), cfun.literal_value(strip_casts(idx2)), mem[2]
+        return lh
     if k == "ArraySubscriptExpr":
         base, idx = n["inner"]
         b = strip_casts(base)
@@ -160,6 +214,8 @@ def modified(n, cx, acc=None):
             v = ident(t["referencedDecl"]["name"])
         else:
             p = cfun.member_path(t, cx.aliases)
+            if p is None and t.get("kind") == "MemberExpr" and cx.elem_parts(t) is not None:
+                p = cx.elem_parts(t)[2]          # `base->arr[i].m...`: the member array `base->arr` is what changes
             sv, _ = cx.split(p) if p else (None, None)
             if sv is None:
                 raise Unsupported("assignment target not understood: %s" % json.dumps(t)[:200])
@@ -168,6 +224,67 @@ def modified(n, cx, acc=None):
             acc.append(v)
     for c in n.get("inner", []):
         modified(c, cx, acc)
+    return acc
+
+
+def declared_in(n, acc=None):
+    """names of the C locals declared anywhere inside statement n (their scope ends with n)"""
+    if acc is None:
+        acc = []
+    if isinstance(n, dict):
+        if n.get("kind") == "VarDecl":
+            acc.append(ident(n["name"]))
+        for c in n.get("inner", []):
+            declared_in(c, acc)
+    return acc
+
+
+def assigned_paths(n, cx, acc=None):
+    """member paths (root member array for nested targets) and locals assigned anywhere inside n"""
+    if acc is None:
+        acc = set()
+    if not isinstance(n, dict):
+        return acc
+    k = n.get("kind")
+    tgt = None
+    if k in ("BinaryOperator", "CompoundAssignOperator") and n.get("opcode") in ASSIGN_OPS:
+        tgt = n["inner"][0]
+    elif k == "UnaryOperator" and n.get("opcode") in ("++", "--"):
+        tgt = n["inner"][0]
+    elif k == "CallExpr" and callee_name(n) in ("memset", "memcpy", "svt_memcpy", "svt_memcpy_c", "EB_MEMCPY", "svt_memcpy_app"):
+        tgt = n["inner"][1]
+    if tgt is not None:
+        t = strip_casts(tgt)
+        while t.get("kind") in ("ArraySubscriptExpr", "UnaryOperator"):
+            t = strip_casts(t["inner"][0])
+        if t.get("kind") == "DeclRefExpr":
+            acc.add(ident(t["referencedDecl"]["name"]))
+        else:
+            p = cfun.member_path(t, cx.aliases)
+            while p is None and t.get("kind") in ("MemberExpr", "ArraySubscriptExpr"):
+                t = strip_casts(t["inner"][0])
+                p = cfun.member_path(t, cx.aliases) if t.get("kind") == "MemberExpr" else None
+            if p is None:
+                raise Unsupported("assignment target not understood")
+            acc.add(p)
+    for c in n.get("inner", []):
+        assigned_paths(c, cx, acc)
+    return acc
+
+
+def read_paths(n, cx, acc=None):
+    """member paths and locals mentioned anywhere inside expression n"""
+    if acc is None:
+        acc = set()
+    if isinstance(n, dict):
+        if n.get("kind") == "MemberExpr":
+            p = cfun.member_path(n, cx.aliases)
+            if p is not None:
+                acc.add(p)
+        if n.get("kind") == "DeclRefExpr" and n.get("referencedDecl", {}).get("kind") in ("VarDecl", "ParmVarDecl"):
+            acc.add(ident(n["referencedDecl"]["name"]))
+        for c in n.get("inner", []):
+            read_paths(c, cx, acc)
     return acc
 
 
@@ -180,6 +297,23 @@ def assign_term(lhs, rhs_term, cx):
         return "let %s : Int := %s" % (lhs.var, rhs_term)
     if lhs.kind == "field":
         return "let %s := { %s with %s := %s }" % (lhs.var, lhs.var, lhs.field, rhs_term)
+    if lhs.kind == "nested":
+        cur = "((%s.%s).getD (%s).toNat default)" % (lhs.var, lhs.field, lhs.idx)
+        bad = []
+        if not (lhs.idx_lit is not None and 0 <= lhs.idx_lit < lhs.arrlen):
+            bad += ["decide (%s < 0)" % lhs.idx, "decide (%s ≥ %d)" % (lhs.idx, lhs.arrlen)]
+        if lhs.idx2 is None:
+            new = "{ %s with %s := %s }" % (cur, lhs.member, rhs_term)
+        else:
+            if not (lhs.idx2_lit is not None and 0 <= lhs.idx2_lit < lhs.arrlen2):
+                bad += ["decide (%s < 0)" % lhs.idx2, "decide (%s ≥ %d)" % (lhs.idx2, lhs.arrlen2)]
+            new = "{ %s with %s := (%s.%s).set (%s).toNat %s }" % (cur, lhs.member, cur, lhs.member, lhs.idx2, rhs_term)
+        oob = ""
+        if bad:
+            if not lhs.oob:
+                raise Unsupported("array write with non-constant index into a structure without oob tracking")
+            oob = ", oob := (if %s then 1 else %s.oob)" % (" || ".join(bad), lhs.var)
+        return "let %s := { %s with %s := (%s.%s).set (%s).toNat %s%s }" % (lhs.var, lhs.var, lhs.field, lhs.var, lhs.field, lhs.idx, new, oob)
     # elem
     oob = ""
     if lhs.idx_lit is not None and lhs.arrlen is not None and 0 <= lhs.idx_lit < lhs.arrlen:
@@ -197,6 +331,9 @@ def read_lhs(lhs):
         return lhs.var
     if lhs.kind == "field":
         return "%s.%s" % (lhs.var, lhs.field)
+    if lhs.kind == "nested":
+        cur = "((%s.%s).getD (%s).toNat default).%s" % (lhs.var, lhs.field, lhs.idx, lhs.member)
+        return cur if lhs.idx2 is None else "((%s).getD (%s).toNat 0)" % (cur, lhs.idx2)
     return "((%s.%s).getD (%s).toNat 0)" % (lhs.var, lhs.field, lhs.idx)
 
 
@@ -264,6 +401,10 @@ def block(lst, cx, tail, ind):
                 raise Unsupported("decl " + str(v.get("kind")))
             init = [c for c in v.get("inner", []) if c.get("kind") not in ("FullComment",)]
             vt = ctype(v)
+            if ident(v["name"]) in cx.declared and vt[0] != "P":
+                raise Unsupported("local %s declared twice (shadowing / redeclaration in a loop-carried scope is not modelled)" % v["name"])
+            if vt[0] != "P":
+                cx.declared.append(ident(v["name"]))
             if vt[0] == "P":
                 # pointer local: only `T *p = &base->member` / `= base` aliases are understood
                 if not init:
@@ -310,11 +451,16 @@ def block(lst, cx, tail, ind):
             t_el = block(([el] if el is not None else []) + rest, cx, tail, ind + "  ")
             return "if %s then\n%s  %s\n%selse\n%s  %s" % (c, ind, t_th, ind, ind, t_el)
         vs = modified(th, cx) + [v for v in (modified(el, cx) if el is not None else []) if v not in modified(th, cx)]
+        scoped = declared_in(th) + (declared_in(el) if el is not None else [])
+        vs = [v for v in vs if v not in scoped]     # locals declared inside a branch do not outlive it
         if not vs:
             return block(rest, cx, tail, ind)
         t = tup(vs)
+        mark = len(cx.declared)
         t_th = block([th], cx, t, ind + "  ")
+        del cx.declared[mark:]
         t_el = block([el], cx, t, ind + "  ") if el is not None else t
+        del cx.declared[mark:]
         return "let %s := (if %s then\n%s  %s\n%selse\n%s  %s)\n%s" % (t, c, ind, t_th, ind, ind, t_el, ind) + block(rest, cx, tail, ind)
     if k == "ForStmt":
         init, _cv, cnd, inc, body = (s["inner"] + [{}] * 5)[:5]
@@ -340,15 +486,21 @@ def block(lst, cx, tail, ind):
         if not (inc.get("kind") == "UnaryOperator" and inc.get("opcode") == "++" and
                 ident(strip_casts(inc["inner"][0])["referencedDecl"]["name"]) == ivar):
             raise Unsupported("for-increment form")
-        vs = [v for v in modified(body, cx) if v != ivar]
-        if ivar in modified(body, cx):
+        scoped = declared_in(body)
+        vs = [v for v in modified(body, cx) if v != ivar and v not in scoped]   # body-local declarations are re-created per iteration
+        if ivar in modified(body, cx) or ivar in scoped:
             raise Unsupported("loop variable assigned in body")
         if has_return(body):
             raise Unsupported("return inside loop")
+        # the bounds are evaluated once here but on every iteration in C: they must not depend on anything the body assigns
+        if (read_paths(cnd["inner"][1], cx) | read_paths(init, cx)) & assigned_paths(body, cx):
+            raise Unsupported("loop bound depends on a variable or member assigned in the loop body")
         if not vs:
             return block(rest, cx, tail, ind)
         t = tup(vs)
+        mark = len(cx.declared)
         inner = block([body], cx, t, ind + "    ")
+        del cx.declared[mark:]
         pat = "let %s := st_\n%s    " % (t, ind) if len(vs) > 1 else ""
         stv = "st_" if len(vs) > 1 else vs[0]
         return ("let %s := (List.range ((%s) - (%s)).toNat).foldl (fun %s k_ =>\n%s    %slet %s : Int := (%s) + (k_ : Nat)\n%s    %s) %s\n%s"
